@@ -108,37 +108,110 @@ theorem DurC_arun {cfg : Cfg} {dir : String} (ops : List AOp) : ∀ {s : St}, Du
 
 /-! ## the combined run invariant -/
 
-/-- the state `s` reached by a history with bookkeeping `h`; `ids` = batch ids still to come -/
-structure RunInv (L : Nat) (cfg : Cfg) (dir : String) (s : St) (h : Hist) (ids : List Nat) : Prop where
-  hinv : ∃ db g, HInv s db g h ids
+/-- the state `s` reached by a history with bookkeeping `h` -/
+structure RunInv (L : Nat) (cfg : Cfg) (dir : String) (s : St) (h : Hist) : Prop where
+  hinv : ∃ db g, HInv s db g h
   size : SizeOK L s
   dur : DurC cfg dir s
-  nodup : ids.Nodup
 
-theorem RunInv_astep {L : Nat} {cfg : Cfg} {dir : String} {s : St} {h : Hist} {ids : List Nat} (op : AOp)
-    (hr : RunInv L cfg dir s h (bnewId op ++ ids)) (hop : AOpOK op) :
-    RunInv L cfg dir (astep s op).1 (hstep s h op) ids := by
+/-- where the id of the batch object after a call comes from (state level) -/
+def IdFromS (s : St) (op : AOp) (s' : St) : Prop :=
+  ∀ b', batchOf s' = some b' → (∃ b, batchOf s = some b ∧ b'.id = b.id) ∨ b'.id ∈ bnewId op
+
+theorem RunInv_astep {L : Nat} {cfg : Cfg} {dir : String} {s : St} {h : Hist} (op : AOp)
+    (hr : RunInv L cfg dir s h) (hop : AOpOK op) (hid : bnewOK s h op) :
+    RunInv L cfg dir (astep s op).1 (hstep s h op) ∧ IdFromS s op (astep s op).1 := by
   obtain ⟨db, g, hi⟩ := hr.hinv
   have hbs : ∀ b, db.batch = some b → BSize db.cfg.fileSize b := by
     obtain ⟨db1, _, e1, _, _, _, e5⟩ := hr.size
     rw [hi.open_] at e1
     cases e1
     exact e5
-  refine ⟨HInv_astep op hi hr.nodup hbs hop, SizeOK_astep hr.size op hop, DurC_astep hr.dur op, ?_⟩
-  exact (List.nodup_append.mp hr.nodup).2.1
-
-theorem bnewIds_cons (op : AOp) (ops : List AOp) : bnewIds (op :: ops) = bnewId op ++ bnewIds ops := by
-  simp only [bnewIds, List.flatMap_cons]
+  obtain ⟨db', g', h1, h2⟩ := HInv_astep op hi hbs hop hid
+  refine ⟨⟨⟨db', g', h1⟩, SizeOK_astep hr.size op hop, DurC_astep hr.dur op⟩, ?_⟩
+  intro b' hb'
+  rw [batchOf_eq h1.open_] at hb'
+  rw [batchOf_eq hi.open_]
+  exact h2 b' hb'
 
 theorem RunInv_arun {L : Nat} {cfg : Cfg} {dir : String} (ops : List AOp) :
-    ∀ {s : St} {h : Hist} {ids : List Nat}, RunInv L cfg dir s h (bnewIds ops ++ ids) →
-      (∀ op ∈ ops, AOpOK op) → RunInv L cfg dir (arun s ops) (hrun s h ops) ids := by
+    ∀ {s : St} {h : Hist}, RunInv L cfg dir s h → (∀ op ∈ ops, AOpOK op) → IdsOK s h ops →
+      RunInv L cfg dir (arun s ops) (hrun s h ops) := by
   induction ops with
-  | nil => intro s h ids hr _; exact hr
+  | nil => intro s h hr _ _; exact hr
   | cons op ops ih =>
-    intro s h ids hr hok
-    rw [bnewIds_cons, List.append_assoc] at hr
-    exact ih (RunInv_astep op hr (hok op (by simp))) (fun o ho => hok o (by simp [ho]))
+    intro s h hr hok hids
+    exact ih (RunInv_astep op hr (hok op (by simp)) hids.1).1 (fun o ho => hok o (by simp [ho])) hids.2
+
+/-! ## a simple sufficient condition for the batch-id side condition -/
+
+theorem hstep_dirty_sub (s : St) (h : Hist) (op : AOp) : ∀ i ∈ (hstep s h op).dirty,
+    i ∈ h.dirty ∨ ∃ b, batchOf s = some b ∧ b.id = i := by
+  intro i hi
+  cases op with
+  | put k v =>
+    simp only [hstep] at hi
+    cases hs : s.db with
+    | none => rw [hs] at hi; exact Or.inl hi
+    | some db => rw [hs] at hi; simp only [] at hi; split at hi <;> exact Or.inl hi
+  | del k =>
+    simp only [hstep] at hi
+    cases hs : s.db with
+    | none => rw [hs] at hi; exact Or.inl hi
+    | some db =>
+      rw [hs] at hi
+      simp only [] at hi
+      split at hi
+      · exact Or.inl hi
+      · split at hi <;> exact Or.inl hi
+  | get k => exact Or.inl hi
+  | sync => exact Or.inl hi
+  | bnew sy id => exact dirtyDrop_sub s h i hi
+  | bput k v => simp only [hstep] at hi; split at hi <;> exact Or.inl hi
+  | bdel k => simp only [hstep] at hi; split at hi <;> exact Or.inl hi
+  | bget k => exact Or.inl hi
+  | bcommit =>
+    simp only [hstep] at hi
+    cases hb : batchOf s with
+    | none => rw [hb] at hi; exact Or.inl hi
+    | some b => rw [hb] at hi; simp only [] at hi; split at hi <;> exact Or.inl hi
+  | bdrop => exact dirtyDrop_sub s h i hi
+
+/-- **pairwise distinct, non-zero, unused ids are fine**: if the ids the history passes to
+    `NewBatch` are pairwise distinct, non-zero, not abandoned and different from the id of the
+    current batch object, the batch-id side condition holds along the whole history -/
+theorem IdsOK_of_fresh {L : Nat} {cfg : Cfg} {dir : String} (ops : List AOp) :
+    ∀ {s : St} {h : Hist}, RunInv L cfg dir s h → (∀ op ∈ ops, AOpOK op) → (bnewIds ops).Nodup →
+      (∀ i ∈ bnewIds ops, i ≠ 0 ∧ i ∉ h.dirty ∧ ∀ b, batchOf s = some b → b.id ≠ i) → IdsOK s h ops := by
+  induction ops with
+  | nil => intro s h _ _ _ _; trivial
+  | cons op ops ih =>
+    intro s h hr hok hnd hfr
+    rw [bnewIds_cons] at hnd hfr
+    have hid : bnewOK s h op := by
+      cases op with
+      | bnew sy id =>
+        obtain ⟨f1, f2, f3⟩ := hfr id (by simp [bnewId])
+        refine ⟨f1, ?_⟩
+        intro hmem
+        rcases dirtyDrop_sub s h id hmem with e | ⟨b, hb, e⟩
+        · exact f2 e
+        · exact f3 b hb e
+      | _ => trivial
+    obtain ⟨hr', hfrom⟩ := RunInv_astep op hr (hok op (by simp)) hid
+    refine ⟨hid, ih hr' (fun o ho => hok o (by simp [ho])) (List.nodup_append.mp hnd).2.1 ?_⟩
+    intro i hi
+    obtain ⟨f1, f2, f3⟩ := hfr i (List.mem_append_right _ hi)
+    refine ⟨f1, ?_, ?_⟩
+    · intro hmem
+      rcases hstep_dirty_sub s h op i hmem with e | ⟨b, hb, e⟩
+      · exact f2 e
+      · exact f3 b hb e
+    · intro b' hb' e
+      rcases hfrom b' hb' with ⟨b, hb, e'⟩ | hmem
+      · exact f3 b hb (e'.symm.trans e)
+      · rw [e] at hmem
+        exact (List.nodup_append.mp hnd).2.2 i hmem i hi rfl
 
 /-! ## establishing the run invariant -/
 
@@ -162,24 +235,78 @@ theorem SizeOK_exists {s : St} {db : DB} {g : GDir} (hs : s.db = some db) (hf : 
     omega
   · intro b hb; rw [hnb] at hb; cases hb
 
+theorem pendingGet_ne_nil_mem (P : Pend) (i : Nat) (h : pendingGet P i ≠ []) : i ∈ P.map (·.1) := by
+  induction P with
+  | nil => exact absurd rfl h
+  | cons y rest ih =>
+    obtain ⟨j, l⟩ := y
+    simp only [pendingGet] at h
+    by_cases e : j = i
+    · simp [e]
+    · rw [if_neg e] at h
+      exact List.mem_cons_of_mem _ (ih h)
+
+/-- the batch ids under which the replay of the ghost directory `g` has parked records (orphaned
+    pieces of batches that were never sealed) -/
+def orphanIds (g : GDir) : List Nat := (replayLog (logOf g)).pending.map (·.1)
+
 /-- the run invariant at the start of a history: a handle without a batch object, whose log
-    denotes the units `U₀`; the ids of the batches the history creates are pairwise distinct,
-    non-zero, and nothing is parked under them -/
+    denotes the units `U₀`; the abandoned ids are those with orphaned records in the log -/
 theorem RunInv_start {s : St} {db : DB} {g : GDir} (hs : s.db = some db) (hf : Files s db g)
-    (hnb : db.batch = none) (hd : DInv s db) (ids : List Nat) (hnd : ids.Nodup)
-    (hfresh : ∀ i ∈ ids, i ≠ 0 ∧ pendingGet (replayLog (logOf g)).pending i = []) :
-    ∃ L, RunInv L db.cfg db.dir s ⟨unitsOfLog (logOf g), []⟩ ids := by
+    (hnb : db.batch = none) (hd : DInv s db) :
+    ∃ L, RunInv L db.cfg db.dir s ⟨unitsOfLog (logOf g), [], orphanIds g⟩ := by
   obtain ⟨L, hL⟩ := SizeOK_exists hs hf hnb
-  refine ⟨L, ⟨db, g, hs, hf, rfl, ?_, ?_⟩, hL, ⟨db, hs, hd, rfl, rfl⟩, hnd⟩
+  refine ⟨L, ⟨db, g, hs, hf, rfl, ?_, ?_⟩, hL, ⟨db, hs, hd, rfl, rfl⟩⟩
   · intro b hb; rw [hnb] at hb; cases hb
   · intro i hi
-    obtain ⟨h1, h2⟩ := hfresh i hi
-    exact ⟨h1, h2, fun b hb => by rw [hnb] at hb; cases hb⟩
+    exact Or.inl (pendingGet_ne_nil_mem _ i hi)
 
-/-- units acknowledged before the history are simply carried along -/
-theorem hstep_units (s : St) (h : Hist) (op : AOp) :
-    (hstep s h op).units = h.units ++ (hstep s ⟨[], h.flushed⟩ op).units ∧
-    (hstep s h op).flushed = (hstep s ⟨[], h.flushed⟩ op).flushed := by
+/-- units acknowledged before the history are simply carried along; the rest of the bookkeeping
+    does not depend on them -/
+theorem hstep_units (s : St) (u : List MUnit) (fl : List Staged) (dy : List Nat) (op : AOp) :
+    hstep s ⟨u, fl, dy⟩ op
+      = ⟨u ++ (hstep s ⟨[], fl, dy⟩ op).units, (hstep s ⟨[], fl, dy⟩ op).flushed, (hstep s ⟨[], fl, dy⟩ op).dirty⟩ := by
+  cases op with
+  | put k v =>
+    simp only [hstep]
+    cases s.db with
+    | none => simp
+    | some db => simp only []; split <;> simp
+  | del k =>
+    simp only [hstep]
+    cases s.db with
+    | none => simp
+    | some db =>
+      simp only []
+      split
+      · simp
+      · split <;> simp
+  | get k => simp [hstep]
+  | sync => simp [hstep]
+  | bnew sy id => simp [hstep, dirtyDrop]
+  | bput k v => simp only [hstep]; split <;> simp
+  | bdel k => simp only [hstep]; split <;> simp
+  | bget k => simp [hstep]
+  | bcommit =>
+    simp only [hstep]
+    cases batchOf s with
+    | none => simp
+    | some b => simp only []; split <;> simp
+  | bdrop => simp [hstep, dirtyDrop]
+
+theorem hrun_units (ops : List AOp) : ∀ (s : St) (u : List MUnit) (fl : List Staged) (dy : List Nat),
+    (hrun s ⟨u, fl, dy⟩ ops).units = u ++ (hrun s ⟨[], fl, dy⟩ ops).units := by
+  induction ops with
+  | nil => intro s u fl dy; simp [hrun]
+  | cons op ops ih =>
+    intro s u fl dy
+    simp only [hrun]
+    rw [hstep_units s u fl dy op, ih, ih _ (hstep s ⟨[], fl, dy⟩ op).units, List.append_assoc]
+
+/-- units and flushed pieces do not depend on the list of abandoned ids -/
+theorem hstep_indep_dirty (s : St) (u : List MUnit) (fl : List Staged) (dy dy' : List Nat) (op : AOp) :
+    (hstep s ⟨u, fl, dy⟩ op).units = (hstep s ⟨u, fl, dy'⟩ op).units ∧
+    (hstep s ⟨u, fl, dy⟩ op).flushed = (hstep s ⟨u, fl, dy'⟩ op).flushed := by
   cases op with
   | put k v =>
     simp only [hstep]
@@ -208,18 +335,36 @@ theorem hstep_units (s : St) (h : Hist) (op : AOp) :
     | some b => simp only []; split <;> simp
   | bdrop => simp [hstep]
 
-theorem hrun_units (ops : List AOp) : ∀ (s : St) (u : List MUnit) (fl : List Staged),
-    (hrun s ⟨u, fl⟩ ops).units = u ++ (hrun s ⟨[], fl⟩ ops).units := by
+theorem hrun_indep_dirty (ops : List AOp) : ∀ (s : St) (u : List MUnit) (fl : List Staged) (dy dy' : List Nat),
+    (hrun s ⟨u, fl, dy⟩ ops).units = (hrun s ⟨u, fl, dy'⟩ ops).units ∧
+    (hrun s ⟨u, fl, dy⟩ ops).flushed = (hrun s ⟨u, fl, dy'⟩ ops).flushed := by
   induction ops with
-  | nil => intro s u fl; simp [hrun]
+  | nil => intro s u fl dy dy'; exact ⟨rfl, rfl⟩
   | cons op ops ih =>
-    intro s u fl
+    intro s u fl dy dy'
     simp only [hrun]
-    obtain ⟨e1, e2⟩ := hstep_units s ⟨u, fl⟩ op
-    have e3 : hstep s ⟨u, fl⟩ op = ⟨u ++ (hstep s ⟨[], fl⟩ op).units, (hstep s ⟨[], fl⟩ op).flushed⟩ := by
-      cases hh : hstep s ⟨u, fl⟩ op with
-      | mk a b => rw [hh] at e1 e2; simp only at e1 e2; rw [e1, e2]
-    rw [e3, ih, ih _ (hstep s ⟨[], fl⟩ op).units, List.append_assoc]
+    obtain ⟨e1, e2⟩ := hstep_indep_dirty s u fl dy dy' op
+    have a : hstep s ⟨u, fl, dy⟩ op
+        = ⟨(hstep s ⟨u, fl, dy⟩ op).units, (hstep s ⟨u, fl, dy⟩ op).flushed, (hstep s ⟨u, fl, dy⟩ op).dirty⟩ := rfl
+    have b : hstep s ⟨u, fl, dy'⟩ op
+        = ⟨(hstep s ⟨u, fl, dy⟩ op).units, (hstep s ⟨u, fl, dy⟩ op).flushed, (hstep s ⟨u, fl, dy'⟩ op).dirty⟩ := by
+      rw [e1, e2]
+    rw [a, b]
+    exact ih _ _ _ _ _
+
+theorem bnewOK_units (s : St) (u : List MUnit) (fl : List Staged) (dy : List Nat) (op : AOp) :
+    bnewOK s ⟨u, fl, dy⟩ op ↔ bnewOK s ⟨[], fl, dy⟩ op := by
+  cases op <;> simp [bnewOK, dirtyDrop]
+
+theorem IdsOK_units (ops : List AOp) : ∀ (s : St) (u : List MUnit) (fl : List Staged) (dy : List Nat),
+    IdsOK s ⟨u, fl, dy⟩ ops ↔ IdsOK s ⟨[], fl, dy⟩ ops := by
+  induction ops with
+  | nil => intro s u fl dy; simp [IdsOK]
+  | cons op ops ih =>
+    intro s u fl dy
+    simp only [IdsOK]
+    rw [hstep_units s u fl dy op, ih, bnewOK_units]
+    exact and_congr Iff.rfl (ih _ (hstep s ⟨[], fl, dy⟩ op).units _ _).symm
 
 /-! ## what is durable -/
 
@@ -285,7 +430,7 @@ theorem Durable_all {s : St} {db : DB} {g : GDir} (hs : s.db = some db) (hf : Fi
     prefix of the units; the prefix is everything when no byte was lost and contains at least the
     durable units.  The recovered handle satisfies the engine invariant for a ghost directory that
     denotes exactly the surviving units. -/
-theorem crash_of_RunInv {L : Nat} {cfg : Cfg} {dir : String} {s : St} {h : Hist} (hr : RunInv L cfg dir s h [])
+theorem crash_of_RunInv {L : Nat} {cfg : Cfg} {dir : String} {s : St} {h : Hist} (hr : RunInv L cfg dir s h)
     (sc : St) (cfg' : Cfg) (d dc : DirSt)
     (hd : s.world.get dir = some d) (hnodb : sc.db = none) (hdc : sc.world.get dir = some dc)
     (hunl : dc.locked = false) (himg : CrashImage d.data dc.data)
